@@ -21,9 +21,10 @@ def main():
     ap.add_argument("-n", type=int, default=20)
     ap.add_argument("--out", required=True)
     a = ap.parse_args()
-    rs = np.random.RandomState(a.seed)
     cases = []
     for it in range(a.n):
+        # one generator per case: an exception in one build must not shift the inputs of the following cases
+        rs = np.random.RandomState((a.seed * 100003 + it) % (2 ** 32))
         nd = 2 if rs.rand() < 0.6 else 3
         cells, d, o = rand_setup(rs, nd, 1, 6 if nd == 2 else 3)
         v, kind = gens.rand_model(rs, cells)
